@@ -360,8 +360,11 @@ func stripKeywords(node any, drop map[string]bool) any {
 	return out
 }
 
-// nonFinite: `minimum=NaN`, `maximum=Inf`, `default=-inf` parse (strconv.ParseFloat accepts them) and make the schema
-// unserialisable; `+nan`, `infin`, `default=inf` on an integer do not parse and are harmless.
+// nonFinite: `minimum=NaN`, `maximum=Inf`, `default=-inf`: strconv.ParseFloat accepts these spellings. Since 068180d the
+// tag parser routes tag numbers through parseFiniteFloat and ignores them like any unparsable value (a number default
+// falls back to the string); before, the bound made the schema unserialisable (fingerprints
+// schema:<style>:tag-nonfinite:schema-not-serialisable, reported again should that return). `+nan`, `infin`,
+// `default=inf` on an integer never parsed. The model line runs at the regenerated facts (Mcp.Gen.SchemaTagFacts).
 func (r *runner) nonFinite() {
 	for _, p := range [][2]string{{"minimum=NaN", "float"}, {"maximum=Inf", "int"}, {"minimum=-Infinity;maximum=+inf", "float"}, {"required,maximum=nan", "str"},
 		{"default=-inf", "float"}, {"minimum=+nan", "float"}, {"maximum=infin;minimum=nano", "float"}, {"default=inf,title=t", "int"}, {"description=d,minimum= iNfInItY ", "arr"}} {
